@@ -13,3 +13,6 @@ GROUPS += [
  dict(_M, cls='B', name='ms_decoder_init', entry='h_ms_decoder_init', unwind=6, timeout=1800, expect_canaries=2, functions=['opus_multistream_decoder_get_size', 'opus_multistream_decoder_init', 'validate_layout'],
       bounds='<= 3 streams, <= 4 channels (stream counts otherwise any int)', what='get_size/init argument validation and per-stream state layout'),
 ]
+GROUPS.append(dict(name='validate_encoder_layout', cls='B', tu='C10_enc_layout.c', entry='h_validate_encoder_layout', dfcc=False, canary='real', expect_canaries=2, unwind=7, timeout=1800,
+    functions=['validate_encoder_layout', 'get_left_channel', 'get_right_channel', 'get_mono_channel'], bounds='<= 5 channels, <= 4 streams, mapping bytes symbolic',
+    what='encoder layout validation accepts exactly the layouts whose streams all have their input channels'))
